@@ -77,6 +77,20 @@ class _Plain(str):
     pass
 
 
+def _impl_kw(p):
+    from aioswitcher.device.tools import sign_packet_with_crc_key
+    import functools
+    try:
+        r = functools.partial(sign_packet_with_crc_key, hex_packet=p)() if len(p) % 4 else sign_packet_with_crc_key(hex_packet=p)
+    except Exception as e:  # noqa
+        return "raise " + C.exc_name(e)
+    return "ok " + C.ut(r)
+
+
+SIGNKW = C.Kind("sign-by-keyword", impl=_impl_kw, model=lambda p: "sign " + C.ut(p), judge=_judge_sign, classify=_classify, nontrivial=_nontrivial,
+                shrink=_shrink)
+
+
 def _impl_substr(a):
     import enum
     kind, text = a
@@ -117,6 +131,9 @@ THREADS = C.Kind("sign-from-four-threads", impl=_impl_threads,
                  classify=lambda a, o: "threads", nontrivial=lambda a, o: len(a))
 
 
+THREADS.debug_rerun = False      # (the batches are large; the log level is exercised by the other streams)
+
+
 def _impl_crc(a):
     return str(binascii.crc_hqx(bytes.fromhex(a[1]), a[0]))
 
@@ -124,7 +141,7 @@ def _impl_crc(a):
 CRC = C.Kind("crc_hqx", impl=_impl_crc, judge=lambda a, out: [(f"crc {a[0]} {C.hx(bytes.fromhex(a[1]))}", out)],
              classify=lambda a, o: "crc", nontrivial=lambda a, o: (a[0], o))
 
-KINDS = {"sign": SIGN, "crc_hqx": CRC, "sign-str-subclass": SUBSTR, "sign-from-four-threads": THREADS}
+KINDS = {"sign-by-keyword": SIGNKW, "sign": SIGN, "crc_hqx": CRC, "sign-str-subclass": SUBSTR, "sign-from-four-threads": THREADS}
 
 
 def shipped_frames():
@@ -209,6 +226,8 @@ def streams(ctx: C.Ctx):
     for i, b in enumerate(bad):
         mixed += [b, rnd[i % len(rnd)].lower()[:64] if i % 3 == 0 else b]
     ctx.run_cases(SIGN, "malformed-texts-asked-again", mixed + bad, exhaustive=False, sample_every=max(1, len(mixed) // 2))
+    ctx.run_cases(SIGNKW, "packet-passed-by-keyword-or-bound-by-partial", rnd[:ctx.n(300, 3000)] + bad[:200] + ["", "00", "aabb"], exhaustive=False,
+                  sample_every=211)
     ctx.run_cases(THREADS, "batches-signed-by-four-threads-at-once", [[rng.randbytes(rng.randrange(1, 120)).hex() for _ in range(ctx.n(4000, 20000))]
                                                                        for _ in range(ctx.n(3, 10))], exhaustive=False)
     # the packet handed over as an instance of a str SUBCLASS (an enum member with str mixed in, a str whose __str__/__format__/
